@@ -37,6 +37,7 @@ type retPoint struct {
 	st      *State
 	results []Val
 	pos     token.Pos
+	blk     *ssa.BasicBlock
 }
 
 func (e *Enc) newInst(fn *ssa.Function, parent *Inst) *Inst {
@@ -180,6 +181,9 @@ func (in *Inst) run(entry *State) {
 	order := in.rpo()
 	for _, b := range order {
 		var st *State
+		if in.parent == nil {
+			in.e.curBlk = b
+		}
 		if b == fn.Blocks[0] {
 			st = entry.clone()
 		} else if lp := in.loopOf[b]; lp != nil {
@@ -340,6 +344,9 @@ func (e *Enc) mergeVals(base string, t types.Type, vs []Val, gs []string) Val {
 
 // block encodes the instructions of b starting in state st.
 func (in *Inst) block(b *ssa.BasicBlock, st *State) {
+	if in.parent == nil {
+		in.e.curBlk = b
+	}
 	for _, ins := range b.Instrs {
 		if _, ok := ins.(*ssa.Phi); ok {
 			continue
@@ -538,7 +545,7 @@ func (in *Inst) instr(ins ssa.Instruction, st *State) {
 		for _, r := range x.Results {
 			rs = append(rs, in.val(r, st))
 		}
-		in.rets = append(in.rets, retPoint{st: st.clone(), results: rs, pos: x.Pos()})
+		in.rets = append(in.rets, retPoint{st: st.clone(), results: rs, pos: x.Pos(), blk: x.Block()})
 		st.reach = "false"
 	case *ssa.Panic:
 		if e.safety && !in.panicsAllowedHere() {
